@@ -326,7 +326,16 @@ func panicString(p interface{}) string {
 			if s, ok := e.v.(string); ok {
 				return s
 			}
-			// error values: best effort
+			// error values: best effort (errors.errorString and similar: pointer to a struct holding the text)
+			if p, ok := e.v.(*value); ok && p != nil {
+				if st, ok := (*p).(structure); ok {
+					for _, f := range st {
+						if s, ok := f.(string); ok {
+							return s
+						}
+					}
+				}
+			}
 			return toString(e.v)
 		}
 		return toString(p.v)
